@@ -3,6 +3,7 @@
 mod c01;
 mod c02;
 mod c03;
+mod c06;
 mod c07;
 mod c10;
 mod core;
@@ -24,6 +25,9 @@ mod c05;
 mod c08;
 mod c14;
 mod c09;
+mod c15;
+mod c15_worker;
+mod c11;
 mod lean;
 mod report;
 mod rng;
@@ -80,6 +84,7 @@ fn main() {
                 "C03" => c03::replay(&f["input"]),
                 "C02" => c02::replay(&f["input"]),
                 "C07" => c07::replay(&f["input"]),
+                "C06" => c06::replay(&f["input"]),
                 "C10" => c10::replay(&f["input"]),
                 "C01" => c01::replay(&f["input"]),
                 "C27" => c27::replay(&f["input"]),
@@ -94,6 +99,8 @@ fn main() {
                 "C08" => c08::replay(&f["input"]),
                 "C14" => c14::replay(&f["input"]),
                 "C09" => c09::replay(&f["input"]),
+                "C15" => c15::replay(&f["input"]),
+                "C11" => c11::replay(&f["input"]),
                 _ => "replay not implemented for this property".to_string(),
             };
             println!("input: {}\n{}", f["input"], out);
@@ -123,6 +130,7 @@ fn main() {
         "C03" => c03::run(&tier, seed, widen),
         "C02" => c02::run(&tier, seed, widen),
         "C07" => c07::run(&tier, seed, widen),
+        "C06" => c06::run(&tier, seed, widen),
         "C10" => c10::run(&tier, seed, widen),
         "C01" => c01::run(&tier, seed, widen),
         "C27" => c27::run(&tier, seed, widen),
@@ -137,6 +145,8 @@ fn main() {
         "C08" => c08::run(&tier, seed, widen),
         "C14" => c14::run(&tier, seed, widen),
         "C09" => c09::run(&tier, seed, widen),
+        "C15" => c15::run(&tier, seed, widen),
+        "C11" => c11::run(&tier, seed, widen),
         _ => {
             eprintln!("unknown property {prop}");
             std::process::exit(2);
